@@ -74,11 +74,11 @@ def candidate_values(rng, T, f, thorough):
     if numeric:
         stepped = f["name"] in c11.SPEC
         ints = [0, 1, -1, 7, -80, 16, 100, rng.randint(-10000, 10000)]
-        floats = [0.0, -0.0, 0.5, -30.5, 16.5, 87.5, 87.6, 1234.5, -0.25, rng.uniform(-1e4, 1e4), round(rng.uniform(-100, 100), 1)]
+        floats = [0.0, -0.0, 0.5, -30.5, 16.5, 87.5, 87.6, 1234.5, 1005.5, 535.0, 994.9, -0.25, rng.uniform(-1e4, 1e4), round(rng.uniform(-100, 100), 1)]
         for v in ints:
             out.append((v, "valid"))
         for v in floats:
-            out.append((v, "valid" if stepped and f["conv"]["k"] != "int" and not (kk[0] in ("int", "intOrNone")) else "open"))
+            out.append((v, "valid" if stepped else "open"))      # "writing a NUMBER to a stepped function": also a float to AM frequency
         for v in (True, False):
             out.append((v, "open"))
         for v in ("12", "-3.5", " 7 ", "1e3", "inf", "nan", "1_0"):
